@@ -199,7 +199,7 @@ def reparse(printed, ledger_text):
     return bparser.parse_string((opts + '\n' if opts else '') + printed)
 
 
-def check_print(ctx, rng, conn, entries, case, full_reload):
+def check_print(ctx, rng, conn, entries, case, full_reload, case_errors=()):
     from beanquery import compiler, query_execute
     from beancount.parser import parser as bparser
     from beancount.core import data
@@ -237,7 +237,10 @@ def check_print(ctx, rng, conn, entries, case, full_reload):
         opts = '\n'.join(l for l in case['ledger'].splitlines() if l.startswith('option '))
         e2, err2, _ = loader.load_string(opts + '\n' + printed)
         ctx.count('obs.print_full_reloads')
-        if err2 or [hash_entry(e, exclude_meta=True) for e in e2] != [hash_entry(e, exclude_meta=True) for e in entries]:
+        # (what the ledger itself reports when loaded -- e.g. a balance assertion in a currency its account does not hold -- the
+        # printed ledger reports again: only a report the original did not have counts)
+        if sorted(e.message for e in err2) != sorted(e.message for e in case_errors) or \
+                [hash_entry(e, exclude_meta=True) for e in e2] != [hash_entry(e, exclude_meta=True) for e in entries]:
             ctx.violation('c14.print_does_not_load_back', f'PRINT of the whole ledger does not load back to equal directives ({len(err2)} errors)', case)
 
 
@@ -261,7 +264,7 @@ def run_case(ctx, n):
         check_balances(ctx, rng, conn, options, case)
         check_journal(ctx, rng, conn, case)
     for _ in range(ctx.pick(2, 4)):
-        check_print(ctx, rng, conn, entries, case, full_reload=not any(type(e).__name__ == 'Pad' for e in entries))
+        check_print(ctx, rng, conn, entries, case, full_reload=not any(type(e).__name__ == 'Pad' for e in entries), case_errors=errors)
     check_print_clauses(ctx, rng, conn, entries, case)
     for _ in range(ctx.pick(2, 4)):
         check_period_reference(ctx, rng, conn, entries, options, case)
